@@ -194,6 +194,13 @@ func derivesFrom(x, e ssa.Value, depth int) bool {
 		return len(v.Edges) > 0
 	case *ssa.Slice:
 		return derivesFrom(v.X, e, depth+1)
+	case *ssa.Call:
+		// strings.TrimPrefix(x, "<one character>") strips at most that one character
+		if calleeIs(v, "strings", "TrimPrefix") && len(v.Common().Args) == 2 {
+			if s, ok := constString(v.Common().Args[1]); ok && len(s) == 1 {
+				return derivesFrom(v.Common().Args[0], e, depth+1)
+			}
+		}
 	}
 	return false
 }
